@@ -347,6 +347,14 @@ func (cs *ContractSet) loadContractFile(path, defaultPkg string) error {
 					if strings.HasPrefix(a, "ghost ") {
 						cl.X = &SX{K: "ghost", Op: strings.TrimSpace(a[6:])}
 					}
+					if strings.HasSuffix(a, "[*]") {
+						// all elements of a slice
+						base, err := parseSpec(strings.TrimSuffix(a, "[*]"))
+						if err != nil {
+							return fmt.Errorf("%s:%d: %v", path, ln, err)
+						}
+						cl.X = &SX{K: "idx", Args: []*SX{base, {K: "id", Op: "*"}}}
+					}
 					cur.Assigns = append(cur.Assigns, cl)
 				}
 			}
